@@ -10,6 +10,20 @@ use proptest::prelude::*;
 use serde::{Deserialize, Serialize};
 use serde_json::Value;
 
+/// Signatures carry no ':' (the driver shrinks within the text before the first ':'; with a
+/// colon-free signature a failure can only shrink to a case with exactly the same signature, so an
+/// unknown failure can never be minimised into a tolerated known one). Panics keep their form.
+fn vfail(sig: impl Into<String>, detail: impl Into<String>) -> Verdict {
+    Verdict::fail(nsig(&sig.into()), detail)
+}
+fn nsig(s: &str) -> String {
+    if s.starts_with("panic:") {
+        s.to_string()
+    } else {
+        s.trim_end_matches(':').replace(':', "/")
+    }
+}
+
 pub const C49_PL: &str = include_str!("../../prolog/c49.pl");
 
 #[derive(Clone, Debug, Serialize, Deserialize)]
@@ -665,10 +679,10 @@ pub fn check(env: &mut Env, c: &Case) -> Verdict {
         Outcome::Sols(v) if v.len() == 1 => v[0].clone(),
         Outcome::Panic(m) => {
             let loc = m.split_whitespace().next().unwrap_or("?");
-            return Verdict::fail(format!("panic:{loc}"), format!("{goal} panicked: {m}"));
+            return vfail(format!("panic:{loc}"), format!("{goal} panicked: {m}"));
         }
         Outcome::Harness(m) => return Verdict::Discard(format!("harness:{}", m.chars().take(40).collect::<String>())),
-        other => return Verdict::fail("driver:unexpected", format!("c49_run gave {} for {goal}", other.short())),
+        other => return vfail("driver:unexpected", format!("c49_run gave {} for {goal}", other.short())),
     };
     let got = match &res {
         T::Atom(a) if a == "limit" => Got::Limit,
@@ -686,7 +700,7 @@ pub fn check(env: &mut Env, c: &Case) -> Verdict {
         // a flavour tag for bignum arguments keeps the signatures of different defects apart
         let big = args.iter().any(|a| matches!(a, T::Int(v) if crate::num::bit_len(v) > 55 && *v > IBig::ZERO));
         let negbig = args.iter().any(|a| matches!(a, T::Int(v) if crate::num::bit_len(v) > 55 && *v < IBig::ZERO));
-        return Verdict::fail(format!("{what}:{pred}:{mode}{}{}", if big { ":big" } else { "" }, if negbig { ":negbig" } else { "" }), format!("{goal}: {detail}"));
+        return vfail(format!("{what}:{pred}:{mode}{}{}", if big { ":big" } else { "" }, if negbig { ":negbig" } else { "" }), format!("{goal}: {detail}"));
     }
     let mut classes: Vec<String> = vec![format!("{pred}-{mode}")];
     let mut nontrivial = false;
